@@ -10,6 +10,8 @@ CONSTANTS
   FileLayer = TRUE
   SilentRelease = FALSE
   ForgetsHandle = FALSE
+  MaxMigrate = 1
+  RegisterOnce = FALSE
   MaxLen = 6
 SPECIFICATION GSpec
 INVARIANTS Emit
